@@ -38,8 +38,12 @@ Lemma last_produce_snoc : forall tr e o, last_produce (tr ++ [(e, o)]) = last_pr
 Proof.
   intros. unfold last_produce, outs_of. rewrite flat_map_app, last_prod_app. simpl. rewrite app_nil_r. reflexivity.
 Qed.
-Lemma accepted_one : forall s e, accepted (nsend s) [e] = newrec s e.
-Proof. intros s e. destruct e; simpl; auto. rewrite app_nil_r. reflexivity. Qed.
+(* a well-formed send made while stopping is refused at once: it is counted as accepted (it fires), but never queued *)
+Lemma newrec_accepted : forall s e, incl (newrec s e) (accepted (nsend s) [e]).
+Proof.
+  intros s e. destruct e; simpl; try (intros ? []). rewrite app_nil_r.
+  destruct ((cnt <? 1) || (bytes <? 0)); simpl; [intros ? []|]. destruct (stopping s); [intros ? []|apply incl_refl].
+Qed.
 Lemma nids_one : forall e, nids [e] = if takes_id e then 1 else 0.
 Proof. intros e. unfold nids; simpl. destruct (takes_id e); reflexivity. Qed.
 
@@ -66,21 +70,21 @@ Proof.
     - unfold newid; destruct (takes_id e); repeat constructor; simpl; tauto.
     - intros y A B. apply FRESH in B as [-> _]. apply ILT in A. lia. }
   assert (NOP : NoDup (outstanding (plus s e))) by (apply NoDup_app_inv in NDP; tauto).
-  assert (ACC : accepted 0 (evs ++ [e]) = accepted 0 evs ++ newrec s e).
-  { rewrite accepted_app. replace (0 + nids evs) with (nsend s) by lia. rewrite accepted_one. reflexivity. }
+  assert (ACC : accepted 0 (evs ++ [e]) = accepted 0 evs ++ accepted (nsend s) [e]).
+  { rewrite accepted_app. replace (0 + nids evs) with (nsend s) by lia. reflexivity. }
   constructor.
   - rewrite UN, nids_app, nids_one, IN. reflexivity.
   - rewrite fired_snoc, (f_out _ _ _ F). apply nodup_after; auto; apply F; auto.
   - intros sid O. pose proof (fires_sub _ _ _ F _ O) as O'. rewrite OP in O'. apply in_app_or in O' as [O'|O'].
     + apply IL in O' as (x & X1 & X2). exists x; split; auto. apply UK; auto. rewrite X2; auto.
     + destruct (UNEW _ O' O) as (x & X1 & X2). exists x; split; auto. apply UK; auto. rewrite X2; auto.
-  - rewrite ACC. intros x X. apply UI in X as [X|X]; apply in_or_app; auto.
+  - rewrite ACC. intros x X. apply UI in X as [X|X]; apply in_or_app; auto. right. apply newrec_accepted; auto.
   - rewrite ACC, fired_snoc. intros x X.
     assert (IO : In (s_id x) (outstanding (plus s e)) \/ In (s_id x) (fired tr)).
     { rewrite OP. apply in_app_or in X as [X|X].
       - apply IALL in X as [X|X]; auto. left; apply in_or_app; auto.
-      - left; apply in_or_app; right. unfold newid, newrec in *. destruct e; simpl in *; try tauto.
-        destruct ((cnt <? 1) || (bytes <? 0)); simpl in *; try tauto. destruct X as [<- |[]]; simpl; auto. }
+      - left; apply in_or_app; right. unfold newid in *. destruct e; simpl in *; try tauto.
+        rewrite app_nil_r in X. destruct ((cnt <? 1) || (bytes <? 0)); simpl in *; try tauto. destruct X as [<- |[]]; simpl; auto. }
     destruct IO as [IO|IO]; [|right; apply in_or_app; auto].
     destruct (in_dec Z.eq_dec (s_id x) (oids o)) as [D|D]; [right; apply in_or_app; auto|].
     left. eapply fires_stay; eauto.
